@@ -713,6 +713,12 @@ func (s *c10Sys) exec(op string) (res c10Result) {
 				s.skipInv = true
 			}
 		}
+	case "rel":
+		// MemoryAllocator.ReleasePhysicalPage: the driver gives the old frame of a migrated page back when the
+		// page's PageMigrationRspToDriver arrives (only in the `c10 lost` scenarios)
+		p := pu(1)
+		fault = run(func() { s.drv.VerifReleasePhysicalPage(p) })
+		out = "ok"
 	case "rmpage":
 		v := pu(1)
 		fault = run(func() { s.drv.VerifRemovePage(v) })
